@@ -36,6 +36,10 @@ def classify(kf, rec):
     if common.repro_only(kf, rec):
         return True
     c = rec["case"]
+    if kf.get("classifier") == "adjacent-pair-split-on-continuation-line":
+        return c.get("pair_split") == "continuation" or c.get("repro") == "D-93"
+    if kf.get("classifier") == "adjacent-tags-wrapped-apart":
+        return c.get("pair_split") in ("unpaired", "unrecognised-pair-body")
     if kf.get("classifier") == "separated-tags-merged":
         return rec["what"].startswith("spacing: separated tags became adjacent")
     if kf.get("classifier") == "sentence-end-inside-construct":
@@ -124,11 +128,27 @@ def run(chk: Check) -> None:
             if not any(ct in collapse(l) for l in lines):
                 m = re.match(r"^(.*?(?:%\}|#\}|\}\}|-->))\s?((?:\{%|\{#|\{\{|<!--).*)$", ct)
                 pieces = [m.group(1), m.group(2)] if m else [ct]
+            bad_piece = False
             for pc in pieces:
                 if not any(pc in collapse(l) for l in lines):
                     nb += 1
+                    bad_piece = True
                     chk.fail("property", dict(case, construct=t), f"atomic construct {t!r} is not intact on one output line", classify)
                     break
+            # an opening tag directly followed by its closing tag ({% f %}{% /f %}) is one word for the wrapper: it may not even be split
+            # between the two tags (finding D-93: it is, when the pair has been moved to a continuation line that starts with other text)
+            if not bad_piece and len(pieces) == 2 and re.match(r"^(?:\{%|\{#|\{\{|<!--)\s*/", pieces[1]):
+                li = next(j for j, l in enumerate(lines) if pieces[0] in collapse(l))
+                # D-93: the rule that puts a closing tag on its own line looks at the raw line (container prefix included)
+                cont = li >= 1 and not lines[li].lstrip().startswith(("{%", "{#", "{{", "<!--"))
+                # D-97: the paired-tag patterns exclude the first character of the closing delimiter from the tag body
+                # ({% .. % .. %}, {# .. # .. #}, {{ .. } .. }}): such a pair is two words for the wrapper
+                excl = {"{%": "%", "{#": "#", "{{": "}"}.get(pieces[0][:2])
+                body0 = pieces[0][2:-2]
+                kind = "continuation" if cont else ("unrecognised-pair-body" if excl and excl in body0 else "other")
+                nb += 1
+                chk.fail("property", dict(case, construct=t, pair_split=kind),
+                         f"adjacent open/close pair {t!r} was split across two lines", classify)
         # spacing between consecutive tag-like atoms
         flat = collapse(out.replace("\n", " "))
         for j, sep in enumerate(c["seps"]):
@@ -136,9 +156,12 @@ def run(chk: Check) -> None:
             if k1 == "atom" and k2 == "atom" and any(a.endswith(x) for x in CLOSES) and any(b.startswith(x) for x in OPENS):
                 la, lb = collapse(a)[-6:], collapse(b)[:6]
                 joined_adj = la + lb in out.replace("\n", "")
-                if sep == "" and not (la + lb in out or re.search(re.escape(la) + r"\n\s*(> |- |\d+\. )?\s*" + re.escape(lb), out)):
-                    if not re.search(re.escape(la) + r"\s*\n[>\s\-*]*" + re.escape(lb), out):
-                        nb += 1
+                if sep == "" and la + lb not in out:
+                    nb += 1
+                    if re.search(re.escape(la) + r"\s*\n[>\s\-*\d.)]*" + re.escape(lb), out):
+                        # two adjacent tags that are not one open/close pair are separate words: a line break can fall between them (D-97)
+                        chk.fail("property", dict(case, pair=[a, b], pair_split="unpaired"), "spacing: adjacent tags were separated by a line break", classify)
+                    else:
                         chk.fail("property", dict(case, pair=[a, b]), "spacing: adjacent tags were separated by a space", classify)
                 if sep != "" and "\n" not in sep and (la + lb) in out:
                     nb += 1
